@@ -38,6 +38,7 @@ def judge_case(spec, do_collapse_pair=False, do_headers=False, do_table=False):
             res['n_must'] = len(o['must'])
             res['nontrivial'] = bool(o['must'])
             res['describe'] = cv.describe(case)
+            res['has_nested'] = any(e.tag == 'nested-donor' for bb in o['bbs'] for e in bb.edits)
             return res
         out = [s for _, s in fa]
         outset = set(out)
@@ -78,6 +79,22 @@ def judge_case(spec, do_collapse_pair=False, do_headers=False, do_table=False):
                 else:
                     rest.append(p)
             res['spurious'] = rest
+        # discrepancies that exist ONLY under the cleavage exception: re-run tool and oracle with the exception off
+        if (res['missing'] or res['spurious']) and o['lim'].exception and case.cfg['rule'] == 'trypsin':
+            try:
+                fa_ne, _ = execute(case, wd, paths, out='noexc.fasta', cfg={'exception': None})
+                cfg_ne = dict(case.cfg)
+                cfg_ne['exception'] = None
+                o_ne = cv.oracle_sets(case, cfg_ne)
+                out_ne = {s for _, s in fa_ne}
+                if not (o_ne['must'] - out_ne) and not (out_ne - o_ne['may']):
+                    res['missing_exc'] = res.get('missing_exc', []) + res['missing']
+                    res['spurious_exc'] = res.get('spurious_exc', []) + res['spurious']
+                    res['missing'], res['spurious'] = [], []
+                    res['counters'] = dict(res.get('counters') or {})
+                    res['exc_only_rerun'] = True
+            except Exception:
+                pass
         res['dup_seq'] = len(out) - len(outset)
         lim = o['lim']
         res['bad_limits'] = sorted(p for p in outset if not dg.ok_peptide(p, lim)
@@ -360,6 +377,13 @@ def mech_missing(o, p):
         return False
     if all(start_anchor(bb, h) for bb, h in W):
         return 'KF-START-ANCHOR'
+    def fusion_both_sides(bb, h):
+        if bb.kind != 'fusion':
+            return False
+        donor_fs = any(e.side == 1 and (len(e.alt) - (e.end - e.start)) % 3 != 0 for e in h)
+        return donor_fs and any(e.side == 2 for e in h)
+    if all(fusion_both_sides(bb, h) for bb, h in W):
+        return 'KF-FUSION-ACCEPTOR-VAR'
     flags = o['flags']
     if flags.sect and all(bb.end_nf for bb, _ in W):
         f2 = orc.Flags(False, flags.w2f, flags.coding_novel_orf, flags.max_adjacent)
@@ -381,6 +405,13 @@ def mech_spurious(o, p, header=None):
             for e in bb.edits:
                 if e.tag == 'nested-donor' and (e.ids & named):
                     return 'KF-NESTED'
+    if header:
+        for ent in header.split(' '):
+            f = ent.split('|')
+            if f[0].startswith('FUSION-') and any(x.startswith('2-') for x in f):
+                bbs = [bb for bb, _ in o['per'] if bb.id == f[0]]
+                if bbs and any(e.side == 1 and (len(e.alt) - (e.end - e.start)) % 3 != 0 for e in bbs[0].edits):
+                    return 'KF-FUSION-ACCEPTOR-VAR'
     for bb, ev in o['per']:
         nested = [e for e in bb.edits if e.tag == 'nested-donor']
         if not nested:
